@@ -15,7 +15,8 @@ RULE = ("Hypothesis rule-based state machine over one ForSys object built on a g
         "cells, tracking inside C12's bounds, frames renumbered independently): rules build_force_matrix(t, angle "
         "limit default/inf/0.6pi..pi, fit, ignore_four), solve_stress(t, method default/lsq/lsq_linear, b_matrix "
         "none/velocity, allow_negatives, adimensional, fresh initial condition), build_pressure_matrix(t), "
-        "solve_pressure(t), get_system_velocity_per_frame(); up to 12 steps in any frame order. After every solve a "
+        "solve_pressure(t), get_system_velocity_per_frame(), Frame.filter_edges, a second ForSys object constructed over the same used frames; "
+        "documented defaults are left out of the calls as drawn; up to 18 steps in any frame order. After every solve a "
         "FRESH object on a fresh realisation performs only the effective last build and that solve and must report "
         "the same tensions / table / pressures; structural invariants are checked after every step. Non-trivial = "
         "history revisits a frame with different options or solves >= 2 frames in non-increasing order; distinct = "
@@ -190,7 +191,7 @@ class History:
     # ---- steps
     def applicable(self, step):
         op = step["op"]
-        if op == "sysvel":
+        if op in ("sysvel", "newsolver"):
             return True
         t = step["t"]
         if t >= self.n:
@@ -212,7 +213,7 @@ class History:
         """Map the drawn frame index onto a frame for which the operation is possible (keeps histories dense)."""
         step = dict(step)
         op = step["op"]
-        if op == "sysvel":
+        if op in ("sysvel", "newsolver"):
             return step
         pools = {"build": list(range(self.n)), "solve": sorted(self.last_build), "pbuild": sorted(self.last_solve),
                  "psolve": sorted(self.pbasis), "filter": list(range(self.n))}
@@ -248,6 +249,16 @@ class History:
             elif op == "filter":
                 call(self.fsys.frames[step["t"]].filter_edges, "SG")
                 self.filtered.add(step["t"])
+            elif op == "newsolver":
+                # a second solver object over the very same (already used) Frame objects, as when a notebook cell is
+                # run again: whatever the first object left on the frames must not change what the new one reports
+                import forsys as fs
+                self.fsys = call(fs.ForSys, self.S.frames, cm=False)
+                self.last_build, self.last_solve, self.solve_basis = {}, {}, {}
+                self.build_filt, self.pbasis, self.psolved = {}, {}, {}
+                self.solve_order = []
+                self.ctx.count("second-solver-object-on-used-frames")
+                return True
             elif op == "solve":
                 t = step["t"]
                 if t in self.last_solve and (self.last_solve[t] != {k: v for k, v in step.items() if k != "t"}):
@@ -498,6 +509,20 @@ class ForSysMachine(RuleBasedStateMachine):
     @rule(step=PBUILD)
     def pbuild(self, step):
         self._do(step)
+
+    @rule(b=BUILD, s=SOLVE)
+    def new_solver_object_then_build_and_solve(self, b, s):
+        """ForSys constructed again over the same, already solved, Frame objects; then a build and a solve."""
+        if self.h is None or self.h.dead or not self.h.last_solve:
+            return
+        self._do({"op": "newsolver"})
+        if self.h.dead:
+            return
+        b = dict(b, t=b["t"] % self.h.n)
+        self._do(b)
+        if not self.h.dead and self.h.last_build:
+            pool = sorted(self.h.last_build)
+            self._do(dict(s, t=pool.index(b["t"]) if b["t"] in pool else 0))
 
     @rule(step=PSOLVE)
     def psolve(self, step):
